@@ -11,6 +11,7 @@ A description is a dict:
   }
   rec = {"t": time_ns, "type": 0|1|2|3, "depth": d, "addr": absolute_addr_or_event_id,
          "more": 0|1, "payload": bytes}      (payload already in on-disk form, see encode_args)
+  optional: "perf": {cpu: [(time, tid, "out"|"preempt"|"in"), ...]}  perf-cpuN.dat context-switch events (FEAT_PERF_EVENT)
   optional: "cpuinfo": "Intel ..."  adds the cpuinfo lines (readers derive the architecture from them)
             "pattern_type": "regex"  adds the pattern_type line (readers match argspec names with it)
 """
@@ -84,6 +85,8 @@ def write(desc, d, with_cmdline=True, argspec=None, extra_info=None):
         feat |= FEAT_ARGUMENT | FEAT_RETVAL
     if desc.get("events"):
         feat |= FEAT_EVENT
+    if desc.get("perf"):
+        feat |= FEAT_PERF_EVENT
     info_mask = INFO_EXE_NAME | INFO_EXIT_STATUS | INFO_TASKINFO
     lines = [b"exename:" + exename.encode(), b"exit_status:0"]
     if with_cmdline:
@@ -131,6 +134,13 @@ def write(desc, d, with_cmdline=True, argspec=None, extra_info=None):
         f.write(("# symbols: %d\n# path name: %s\n" % (len(syms), exename)).encode())
         for a, s, t, n in syms:
             f.write(("%016x %08x %s " % (a, s, t)).encode() + (n if isinstance(n, bytes) else n.encode()) + b"\n")
+    # perf context-switch events: {cpu: [(time, tid, "out" | "preempt" | "in"), ...]} -> perf-cpuN.dat
+    # (PERF_RECORD_SWITCH = 14 with sample_id {pid, tid, time}; misc 0x2000 = switch out, 0x4000 = preempted)
+    for cpu, evs in (desc.get("perf") or {}).items():
+        with open(os.path.join(d, "perf-cpu%d.dat" % int(cpu)), "wb") as f:
+            for tm, tid, kind in evs:
+                misc = {"in": 0, "out": 0x2000, "preempt": 0x2000 | 0x4000}[kind]
+                f.write(struct.pack("<IHHIIQ", 14, misc, 24, tid, tid, tm))
     for t in tasks:
         data = t.get("raw")
         if data is None:
